@@ -313,8 +313,11 @@ def explore(cfg, bound, model="preempt", oracle=None, max_exec=None, time_cap=No
              "model": model, "samples": []}
     t0 = time.time()
     frontier = [([], None, restrict)]
-    pool = multiprocessing.Pool(procs, initializer=_worker_init,
-                                initargs=(cfg, oracle, bound, model, base))
+    import concurrent.futures
+    from concurrent.futures.process import BrokenProcessPool
+    pool = concurrent.futures.ProcessPoolExecutor(
+        procs, mp_context=multiprocessing.get_context("fork"), initializer=_worker_init,
+        initargs=(cfg, oracle, bound, model, base))
     try:
         while frontier:
             if max_exec is not None and stats["executions"] + len(frontier) > max_exec:
@@ -324,10 +327,15 @@ def explore(cfg, bound, model="preempt", oracle=None, max_exec=None, time_cap=No
                 if not frontier:
                     break
             nxt = []
-            for res in pool.imap_unordered(_worker, frontier, chunksize=1):
+            futures = [pool.submit(_worker, item) for item in frontier]
+            for fut in concurrent.futures.as_completed(futures):
+                try:
+                    res = fut.result()
+                except BrokenProcessPool:
+                    stats["machinery"] = "an explorer worker process died"
+                    return _finish(stats, t0, base)
                 if res["machinery"]:
                     stats["machinery"] = res["machinery"]
-                    pool.terminate()
                     return _finish(stats, t0, base)
                 stats["executions"] += 1
                 stats["states"].update(res["fps"])
@@ -349,7 +357,6 @@ def explore(cfg, bound, model="preempt", oracle=None, max_exec=None, time_cap=No
                 nxt.extend(res["children"])
                 if time_cap is not None and time.time() - t0 > time_cap:
                     stats["capped"] = f"time_cap={time_cap}s"
-                    pool.terminate()
                     return _finish(stats, t0, base)
             if progress:
                 progress(stats, len(nxt))
@@ -357,8 +364,13 @@ def explore(cfg, bound, model="preempt", oracle=None, max_exec=None, time_cap=No
                 break
             frontier = nxt
     finally:
-        pool.terminate()
-        pool.join()
+        procs_alive = list((getattr(pool, "_processes", None) or {}).values())
+        pool.shutdown(wait=False, cancel_futures=True)
+        for proc in procs_alive:
+            try:
+                proc.terminate()
+            except Exception:
+                pass
     return _finish(stats, t0, base)
 
 
